@@ -42,7 +42,7 @@ READER_UNPROVED = IBC_ASSUMED
 PROPS = {
     'C01': dict(
         level='proof',
-        level_text='Proved (Verus, unbounded) end to end at the level of bytes, down to the block decoder and the assumed std I/O contracts: (1) the whole write path -- framing == LEB128 frames, block bytes == payload ++ offset table ++ count, every emitted block == be64(len) ++ compress(block) -- and Writer::into_inner emits a well-formed file (file_wf) holding exactly the inserted entries, count/codec/levels in the 22-byte trailer, sink flushed; (2) lemma_open_written: whatever metadata a reader decodes from the trailer of such bytes is the written one (trailer injectivity), the bytes are a well-formed tree from the decoded root (tree_ok) and the entry list the cursor contracts speak about (tree_entries) is exactly the inserted list -- including uniqueness of the decoded tree (any two block logs describing the same bytes agree block by block); (3) Block::read_from decodes exactly the stored block; every ReaderCursor move returns the entry of tree_entries the statement prescribes (first = entry 0, next = i+1, ..., None past the ends), Reader::len == count. The IndexBlockCursor traversal underneath is proved too (per-level invariant over the index levels; one trusted one-line shim for a closure passed as &mut). Bounded stand-in for the whole pipeline: real Writer+Reader over all codecs, index depths 0..5 and 255, block sizes, intervals, key shapes incl. the lone empty key and entries larger than a block, compared with the inserted list and cross-checked by an independent decoder.',
+        level_text='Proved (Verus, unbounded) end to end at the level of bytes, down to the block decoder and the assumed std I/O contracts: (1) the whole write path -- framing == LEB128 frames, block bytes == payload ++ offset table ++ count, every emitted block == be64(len) ++ compress(block) -- and Writer::into_inner emits a well-formed file (file_wf) holding exactly the inserted entries, count/codec/levels in the 22-byte trailer, sink flushed; (2) lemma_open_written: whatever metadata a reader decodes from the trailer of such bytes is the written one (trailer injectivity), the bytes are a well-formed tree from the decoded root (tree_ok) and the entry list the cursor contracts speak about (tree_entries) is exactly the inserted list -- including uniqueness of the decoded tree (any two block logs describing the same bytes agree block by block); (3) Block::read_from decodes exactly the stored block; every ReaderCursor move returns the entry of tree_entries the statement prescribes (first = entry 0, next = i+1, ..., None past the ends), Reader::len == count. The IndexBlockCursor traversal underneath is proved too (per-level invariant over the index levels; one trusted one-line shim for a closure passed as &mut). (4) The statement itself as the postcondition of verification-only clients built from the real functions: verif_roundtrip (builder.build on an in-memory sink, insert every entry of a strictly ascending list, into_inner, Reader::new on a Cursor over the bytes, into_cursor, move_on_next until None) returns exactly the inserted pairs, verif_scan_back the reverse -- so every precondition of the write path is established from scratch (no vacuous contract) and the per-call contracts compose to C01. Bounded stand-in for the whole pipeline: real Writer+Reader over all codecs, index depths 0..5 and 255, block sizes, intervals, key shapes incl. the lone empty key and entries larger than a block, compared with the inserted list and cross-checked by an independent decoder.',
         level_note='Proved obligations trust: ' + ASSUME_CODEC + '; ' + ASSUME_IO + '; ' + ASSUME_PHYS + '; ' + ASSUME_DROP + '. Assumed: ' + IBC_ASSUMED,
         technique='Verus contracts on the extracted write path, block decoding and ReaderCursor + ghost file model (block log / index tree) with a write-meets-read lemma; bounded differential stand-in (real Writer/Reader vs inserted list and independent decoder)',
         kani=[], native=[N('verif_rw::c01_roundtrip', '25 (quick) / 67 (thorough) files: <= 2700 entries, index_levels in {0,1,2,3,4,5,255}, all 6 codecs, block sizes {1024,1500,4096}, intervals {1,2,3,7,8,100}')], witness=[],
@@ -64,14 +64,14 @@ PROPS = {
         unproved=[READER_UNPROVED], explanation='history independence proved for ReaderCursor and IndexBlockCursor; bounded stand-in as independent check'),
     'C04': dict(
         level='proof',
-        level_text='Proved (Verus, unbounded, on top of the proved ReaderCursor contracts): RangeIter::next / RevRangeIter::next return, on the first call, the first (last) entry satisfying the start (end) bound iff it also satisfies the opposite bound, and afterwards the adjacent entry iff it satisfies the opposite bound; end_contains/start_contains are exactly the bound predicates of the statement. The ReaderCursor contracts are themselves proved (C02/C03) and so is the IndexBlockCursor underneath (one trusted closure shim); the bounded stand-in remains as an independent check: forward and reverse range iterators over all 9 bound-kind combinations with present/absent/equal/inverted bounds on files with index depth 0..4 and variable-length keys, compared with the filtered sorted list.',
+        level_text='Proved (Verus, unbounded, on top of the proved ReaderCursor contracts): RangeIter::next / RevRangeIter::next return, on the first call, the first (last) entry satisfying the start (end) bound iff it also satisfies the opposite bound, and afterwards the adjacent entry iff it satisfies the opposite bound; end_contains/start_contains are exactly the bound predicates of the statement; the constructors and Reader::into_range_iter / into_rev_range_iter start the iterator fresh on an unset cursor with exactly the bounds the caller gave; and the verification-only clients verif_query_range / verif_query_rev_range (adapter, then next() until None) return exactly the stored entries inside the range -- a contiguous window of the sorted entry list, ascending resp. descending (range_fwd_drained / range_rev_drained, window lemmas over lexicographic order). The ReaderCursor contracts are themselves proved (C02/C03) and so is the IndexBlockCursor underneath (one trusted closure shim); the bounded stand-in remains as an independent check: forward and reverse range iterators over all 9 bound-kind combinations with present/absent/equal/inverted bounds on files with index depth 0..4 and variable-length keys, compared with the filtered sorted list.',
         level_note=READER_UNPROVED + '; bounded: ~1300 ranges per run',
         technique='Verus contracts on RangeIter/RevRangeIter over the proved cursor contracts (index cursor proved as well) + bounded differential stand-in',
         kani=[], native=[N('verif_cursor::c04_ranges', '95 (405 thorough) ranges per file x 14 files')], witness=[],
         unproved=[READER_UNPROVED], explanation='iterator, cursor and index-cursor layers proved; bounded stand-in as independent check'),
     'C05': dict(
         level='proof',
-        level_text='Proved (Verus, unbounded, on top of the proved ReaderCursor contracts): advance_key computes the prefix successor adv(p) (None iff p is empty or all 0xFF), with the lemmas that keys with prefix p are exactly the keys in [p, adv(p)); PrefixIter::next / RevPrefixIter::next / move_on_last_prefix return the first (last) entry of that interval iff it has the prefix, then the adjacent one. The ReaderCursor contracts are themselves proved (C02/C03) and so is the IndexBlockCursor underneath (one trusted closure shim); the bounded stand-in remains as an independent check: forward and reverse prefix iterators for prefixes that are empty, longer than every key, stored keys, ending in / made of / containing interior 0xFF bytes, matching nothing; compared with the filtered sorted list.',
+        level_text='Proved (Verus, unbounded, on top of the proved ReaderCursor contracts): advance_key computes the prefix successor adv(p) (None iff p is empty or all 0xFF), with the lemmas that keys with prefix p are exactly the keys in [p, adv(p)); PrefixIter::next / RevPrefixIter::next / move_on_last_prefix return the first (last) entry of that interval iff it has the prefix, then the adjacent one; the constructors and Reader::into_prefix_iter / into_rev_prefix_iter start fresh with exactly the prefix the caller gave; and the verification-only clients verif_query_prefix / verif_query_rev_prefix (adapter, then next() until None) return exactly the stored entries whose key starts with the prefix, ascending resp. descending (prefix_fwd_drained / prefix_rev_drained). The ReaderCursor contracts are themselves proved (C02/C03) and so is the IndexBlockCursor underneath (one trusted closure shim); the bounded stand-in remains as an independent check: forward and reverse prefix iterators for prefixes that are empty, longer than every key, stored keys, ending in / made of / containing interior 0xFF bytes, matching nothing; compared with the filtered sorted list.',
         level_note=READER_UNPROVED + '; bounded: ~2000 prefixes per run',
         technique='Verus contracts on advance_key/PrefixIter/RevPrefixIter over the proved cursor contracts (index cursor proved as well) + bounded differential stand-in',
         kani=[], native=[N('verif_cursor::c05_prefixes', '~150 prefixes per file x 14 files')], witness=[],
